@@ -45,7 +45,10 @@ func severityAllowed(name string, s lint.LintStatus) (bool, string) {
 
 // judgeC06 tallies lint x status over one lint run.
 func judgeC06(rec *stats.Rec, c engine.Case) (string, string) {
-	run := engine.Execute(c, false)
+	return judgeC06Run(rec, c, engine.Execute(c, false))
+}
+
+func judgeC06Run(rec *stats.Rec, c engine.Case, run *engine.Run) (string, string) {
 	if !run.Parsed {
 		rec.Class("parse_rejected")
 		return "", ""
@@ -127,6 +130,10 @@ func TestC06(t *testing.T) {
 			}
 		}
 	})
+	// home sweep: every lint's own single-edit neighbourhood (enumerated)
+	homeSweep(rec, 2, false, "c06", func(c engine.Case, run *engine.Run) (string, string) {
+		return judgeC06Run(rec, c, run)
+	}, func(s string) { t.Fatalf("%s", s) })
 	// directed: home objects of each lint x single leaf edits inside extensions and names
 	hm := homeObjects()
 	reg := registryLints(lint.GlobalRegistry())
